@@ -348,7 +348,7 @@ func (p *parser) bin(level int) (Expr, error) {
 }
 
 func (p *parser) unary() (Expr, error) {
-	if p.isOp("!") || p.isOp("-") {
+	if p.isOp("!") || p.isOp("-") || p.isOp("&") {
 		op := p.next().v
 		x, err := p.unary()
 		if err != nil {
@@ -751,7 +751,7 @@ func (cs *Contracts) parse(path, data string) error {
 					return fail(err)
 				}
 				kind := w[2]
-				if kind != "invariant" && kind != "decreases" {
+				if kind != "invariant" && kind != "decreases" && kind != "unfold" {
 					return fail(fmt.Errorf("bad loop clause kind %q", kind))
 				}
 				idx := strings.Index(rc.text, kind) + len(kind)
